@@ -560,6 +560,22 @@ def reentrancy_rule(run):
             tested = bool(ip_starts) and all(any(q.render(ip, q.strip_casts(a_)).replace('this->', '') == fld and not p_ for a_, p_ in q.guards_at(ip, c)) for c in ip_starts)
             if raised and lowered and tested:
                 ok, how = True, 'flag %s is raised across forward_packet() and incoming_packet() does not start the sender while it is up' % fld
+    # ... and when the next departure IS decided after the hand-over, the decision reads the queue as it is THEN: a
+    # backlog test sampled into a local before forward_packet() is stale if the hand-over re-entered and enqueued
+    # (the re-entrant arrival saw the flag and left the start to this resume, which then finds "nothing to send")
+    for s_ in late:
+        stale = []
+        conds = [n_['cond'] for n_ in ns.all_nodes() if n_['k'] in ('if', 'while', 'for', 'cond') and is_node(n_.get('cond')) and any(y is s_ for y in walk(n_))]
+        for a_ in conds:        # the conditions as written (guards_at resolves a named condition to its definition)
+            for x in walk(a_):
+                if x['k'] == 'ref' and x.get('dk') == 'local':
+                    for site, rhs in q.local_defs(ns, x['did']):
+                        reads_q = any(y['k'] == 'member' and y.get('name') in ('m_queue', 'm_queue_size') for y in walk(rhs))
+                        if reads_q and any(q.precedes(ns, site, f_) and not q.precedes(ns, f_, site) for f_ in fwd):
+                            stale.append((x.get('name'), site))
+        run.check(not stale, 'R16', 'resume-reads-queue-after-handover', Q + '::next_packet_sent', ns.loc(stale[0][1]) if stale else ns.loc(s_),
+                  'the decision to start the next departure after forward_packet() is taken from `%s`, a reading of the queue made BEFORE the packet was handed on: a packet that the next hop sent back through this queue during the hand-over (a hop shared by both directions: SYN+ACK, ACK) was enqueued while the forwarding flag was up and is now never started - the queue holds a packet and is idle for good' % (stale[0][0] if stale else ''),
+                  'the backlog is read after the hand-over')
     run.check(ok, 'R16', 'hop-reentrancy', Q + '::next_packet_sent', ns.loc(late[0]) if late else ns.loc(),
               'next_packet_sent() starts the next departure after forward_packet(): when forwarding re-enters incoming_packet() of this queue (a hop shared by both directions) the sender has already been started for the new packet and is started again - the timer is armed twice, one packet is taken twice (front() of an empty deque) or the two completions cancel each other forever',
               how)
